@@ -988,3 +988,68 @@ def gj_cpu(I, g):
     rpg = G(I, s.raw("server")).q("ram_per_gpu")
     I.require("ram_per_gpu is not zero", rpg != 0)
     return ("q", s.q("llm_memory_factor") * s.q("active_params") * s.q("nb_of_bits_per_parameter") / rpg, GPU)
+
+
+# =====================================================================================================================
+# Network  (C02: per usage pattern, the country's intensity; C12; C19)
+# =====================================================================================================================
+def net_ghosts(I, net):
+    key = ("net_ghosts", net.name)
+    if key in I.eng.run.cache: return I.eng.run.cache[key]
+    g = G(I, net)
+    ups, jobs = g.lst("usage_patterns"), g.lst("jobs")
+    def jups(j): return I.model_getattr(jobs.elem(j), "usage_patterns")
+    def member(j, m):
+        x = jups(j).elem(m)
+        IN = I.world.member_formula(I, ups, x)
+        return IN, x.pos_in[ups.name], x
+    def dT(j, m):
+        IN, pos, x = member(j, m)
+        return mv_of(I.model_getattr(jobs.elem(j), "hourly_data_transferred_per_usage_pattern").get(I, x))
+    def inner(j, k):
+        """sum over the positions m of job j's usage patterns that are the network's k-th usage pattern"""
+        def term(m):
+            IN, pos, x = member(j, m)
+            d = dT(j, m)
+            return MV(z3.Or(d.is_empty, z3.Not(z3.And(IN, pos == k))), d.vec, DIMLESS)
+        return FoldMV(I, f"net.inner[{net.name}]", term, DIMLESS, params=(j, k))
+    def outer(k):
+        return FoldMV(I, f"net.outer[{net.name}]", lambda j: inner(j, k).at(jups(j).n), DIMLESS, params=(k,))
+    bei = g.q("bandwidth_energy_intensity")
+    def aci(k): return G(I, I.model_getattr(ups.elem(k), "country")).q("average_carbon_intensity")
+    total = FoldMV(I, f"net.total[{net.name}]", lambda k: mv_scale(outer(k).at(jobs.n), bei * aci(k), W.MASS), W.MASS, params=(z3.IntVal(0),))
+    r = dict(ups=ups, jobs=jobs, jups=jups, inner=inner, outer=outer, total=total, bei=bei, aci=aci)
+    I.eng.run.cache[key] = r
+    return r
+
+
+def _net_loops():
+    def empty_expl(I):
+        return X.new_expl(I, "empty", None, "no value")
+    def loop0(ctx):      # for job in self.jobs
+        I = ctx.interp; gh = net_ghosts(I, ctx.env["self"])
+        def view(i):
+            return {"hourly_data_transferred_per_up": KDict(gh["ups"], lambda k: mv_to_explu(gh["outer"](k).at(i)))}
+        view.commutative = True
+        return view
+    def loop1(ctx):      # for up in job_ups_in_network_ups
+        I = ctx.interp; gh = net_ghosts(I, ctx.env["self"])
+        j = ctx.env["job"].index
+        def view(m):
+            return {"hourly_data_transferred_per_up": KDict(gh["ups"], lambda k: mv_to_explu(mv_add(gh["outer"](k).at(j), gh["inner"](j, k).at(m))))}
+        view.commutative = True
+        return view
+    def loop2(ctx):      # for up in self.usage_patterns
+        I = ctx.interp; gh = net_ghosts(I, ctx.env["self"])
+        def view(i): return {"energy_footprint": mv_to_explu(gh["total"].at(i))}
+        view.commutative = True
+        return view
+    return {0: loop0, 1: loop1, 2: loop2}
+
+
+@update("Network", "update_energy_footprint", loops=lambda I, g: _net_loops())
+def net_ef(I, g):
+    """EF(t) = sum over the network's usage patterns up of  intensity(country of up) * bandwidth energy intensity *
+    sum over the jobs of up of the data they transfer for up at hour t   (each (job, usage pattern) pair once)"""
+    gh = net_ghosts(I, g.o)
+    return gh["total"].at(gh["ups"].n)
